@@ -85,7 +85,10 @@ def rule_phi_insertion(ctx):
     if hp is not None:
         t = render(hp["body"]).replace(" ", "")
         pv = sgrep.params(hp)
-        ctx.check(R, "SSABasicBlock::has_phi_statement", sgrep.has(hp["body"], "self.statements().any(|__s| __s.is_phi_statement_for(__v))", sgrep.lets(hp["body"]), {"__v": pv[0]} if pv else None), t, site(TR, hp))
+        from astlib import exists_form
+
+        ef = exists_form(hp)
+        ctx.check(R, "SSABasicBlock::has_phi_statement", bool(pv) and ef == ("self.statements()", "$x.is_phi_statement_for(%s)" % pv[0]), "%s ; %s" % (ef, t), site(TR, hp))
     ip = find_fn(TR, "insert_phi_statement")
     if ip is not None:
         t = render(ip["body"]).replace(" ", "")
@@ -129,7 +132,9 @@ def rule_phi_insertion(ctx):
     if top is not None:
         t = render(top["body"]).replace(" ", "")
         pv = sgrep.params(top)
-        ctx.check(R, "insert_ssa_variables/starts-at-entry-block", sgrep.has(top["body"], "insert_ssa_variables_impl::<Cfg>(0, __b, __d, __e)?", None, {"__b": pv[0], "__d": pv[1], "__e": pv[2]} if len(pv) == 3 else None), t[:160], site(SSA, top))
+        bnd = {"__b": pv[0], "__d": pv[1], "__e": pv[2]} if len(pv) == 3 else None
+        lenv_t = sgrep.lets(top["body"])
+        ctx.check(R, "insert_ssa_variables/starts-at-entry-block", sgrep.has(top["body"], "insert_ssa_variables_impl::<Cfg>(0, __b, __d, __e)", lenv_t, bnd) or sgrep.has(top["body"], "insert_ssa_variables_impl(0, __b, __d, __e)", lenv_t, bnd), t[:160], site(SSA, top))
     up = find_fn(TR, "update_phi_statements")
     if up is not None:
         t = render(up["body"]).replace(" ", "")
